@@ -468,7 +468,7 @@ def mem_type_to_id(ctx, F, inst, adt, inv, MID):
     return True
 
 
-def classify_local(F, body, tb, L, dom):
+def classify_local(F, body, tb, L, dom, total=True):
     """interval table for the definitions of local L (same engine as classify, other target place)"""
     from .. import classify as CL
     # find input = first switch discriminant
@@ -511,7 +511,7 @@ def classify_local(F, body, tb, L, dom):
         if CL.inter(cov, sset):
             return None
         cov = CL.union(cov, sset)
-    if CL.minus(dom, cov):
+    if total and CL.minus(dom, cov):
         return None
     return it, pcs
 
